@@ -9,7 +9,7 @@ Complements `Model/ConvLine.lean` (the address dimension only). Mirrors, path by
 * `ConvertLineProgram::{convert_string, convert_file}`, `LineString::new`       → `convertString`, `convertFile`
 * `ConvertLineProgram::new` (working directory / comp name fallbacks, `InvalidLineBase`,
   directory and file mappings, the `file_has_*` flags)                          → `convNew`
-* `ConvertLineProgram::{read_row, convert_row}` and the loop of `convert`       → `readRow`, `convertRow`, `convLoop`
+* `ConvertLineProgram::{read_row, convert_row, address_offset}` and the loop of `convert` → `readRow`, `convertRow`, `convLoop`
 * `ConvertUnit::convert_file_index` (`DW_AT_decl_file`-style attributes)          → `convertFileIndex`
 * `Unit::line_program_in_use`                                                   → `programWritten`
 
@@ -34,6 +34,7 @@ inductive CErr where
   | invalidFileIndex
   | invalidDirectoryIndex
   | invalidLineBase
+  | unsupportedLineInstruction
   deriving DecidableEq, Repr
 
 def CErr.name : CErr → String
@@ -46,6 +47,7 @@ def CErr.name : CErr → String
   | .invalidFileIndex => "InvalidFileIndex"
   | .invalidDirectoryIndex => "InvalidDirectoryIndex"
   | .invalidLineBase => "InvalidLineBase"
+  | .unsupportedLineInstruction => "UnsupportedLineInstruction"
 
 /-- outcome of a conversion step: a value, a `ConvertError`, or a panic -/
 inductive CRes (α : Type) where
@@ -138,6 +140,8 @@ structure CSt where
 def convertFile (strs : Strs) (st : CSt) (f : FileEntry) : CRes CSt := do
   let version := st.prog.enc.version
   let (tabs, name) ← convertString strs version st.tabs f.path
+  -- only `DW_LNE_define_file` can have an empty name for these versions, and it cannot be written
+  if name.form = .string ∧ name.val.isEmpty ∧ version ≤ 4 then .err .unsupportedLineInstruction else
   if f.dirIndex ≥ st.dirs.length then .err .invalidDirectoryIndex else
   let dir := st.dirs.getD f.dirIndex 0
   let (tabs, source) ← (match f.source with
@@ -202,10 +206,13 @@ def convNew (m : Mode) (strs : Strs) (hd : Header) (tabs : Tabs) : CRes CSt := d
                                               hasMd5 := has 5, hasSource := has 0x2001 } }
   convertFiles strs st hd.files
 
-/-- `ConvertLineProgram::convert_row` -/
+/-- `ConvertLineProgram::convert_row`; its first step is `address_offset()`: an offset that is not a
+multiple of the minimum instruction length (which `DW_LNS_fixed_advance_pc` can produce) cannot be
+converted (`UnsupportedLineInstruction`; `read_row` does the same for the end of a sequence) -/
 def convertRow (st : CSt) : CRes WRow :=
   let file := st.fromRow.file
-  if file ≥ st.files.length then .err .invalidFileIndex
+  if st.fromRow.address % st.prog.enc.minInstLen ≠ 0 then .err .unsupportedLineInstruction
+  else if file ≥ st.files.length then .err .invalidFileIndex
   else if file = 0 ∧ st.prog.enc.version ≤ 4 then .err .invalidFileIndex
   else .ok { addressOffset := st.fromRow.address, opIndex := st.fromRow.opIndex,
              file := st.files.getD file 0, line := st.fromRow.line, column := st.fromRow.column,
@@ -252,7 +259,8 @@ def readRowLoop (strs : Strs) (h : Params) : (tomb : Bool) → (address : Option
             readRowLoop strs h false none { st with fromRow := reset h row, fromAddress := 0 } rest
           else readRowLoop strs h tomb address { st with fromRow := reset h row } rest
         else if row.endSequence then
-          .ok (some (.endSeq address row.address), { st with fromRow := row, inSeq := false }, rest)
+          if row.address % h.minInstLen ≠ 0 then .err .unsupportedLineInstruction
+          else .ok (some (.endSeq address row.address), { st with fromRow := row, inSeq := false }, rest)
         else
           let st := { st with fromRow := row, inSeq := true }
           match convertRow st with
